@@ -320,6 +320,66 @@ func init() {
 	mutantAlready[snapMutants[len(snapMutants)-1].name] = "probe=value-of-s"
 }
 
+func init() {
+	lfMutants = append(lfMutants,
+		lfMutant{"defclass / define-condition load form leaves an option out when its VALUE is nil",
+			[]string{"ov:class:initform:nil", "ov:condition:initform:nil", "ov:class:initform:number", "ov:class:default-initargs:nil"},
+			func(kind, text string) string {
+				if kind != "class" {
+					return text
+				}
+				return optNilRe.ReplaceAllString(text, "")
+			}},
+		lfMutant{"defun load form writes a parameter without its default when the default is 0 or the empty string",
+			[]string{"ov:defun:optional-default:zero", "ov:defun:key-default:empty-string", "ov:defun:optional-default:number"},
+			func(kind, text string) string {
+				if kind != "defun" {
+					return text
+				}
+				return falsyDefaultRe.ReplaceAllString(text, "$1")
+			}},
+		lfMutant{"every qualified method of a generic function is written with the lambda list of the primary method",
+			[]string{"generic:qualifier-own-defaults", "generic:qualifier-own-parameter-names"},
+			func(kind, text string) string {
+				if kind != "generic" {
+					return text
+				}
+				text = qualDefaultRe.ReplaceAllString(text, "${1}7)")
+				return qualParamRe.ReplaceAllString(text, "((a${1}fixnum))")
+			}})
+	mutantAlready[lfMutants[len(lfMutants)-3].name] = "bound-s-of-new-instance"
+	mutantAlready[lfMutants[len(lfMutants)-2].name] = "probe-differs:default-of"
+	// the tree as it is has this defect (Aux.LoadForm, one lambda list per specializer key)
+	mutantAlready[lfMutants[len(lfMutants)-1].name] = "feat=qualifier-own-"
+	snapMutants = append(snapMutants,
+		snapMutant{"snapshot leaves :initform out of a defclass form when the init form is nil",
+			[]string{"snap|ov:class:initform:nil", "snap|ov:class:initform:t"},
+			func(text string) string { return optNilRe.ReplaceAllString(text, "") }},
+		snapMutant{"snapshot writes a macro after the function that uses it",
+			[]string{"snap|macro-user-sorts-last"},
+			func(text string) string {
+				i := strings.Index(text, "(defmacro ab-quote")
+				j := strings.Index(text, "(defun zy-user")
+				if i < 0 || j < 0 || j < i {
+					return text
+				}
+				ei, ej := matching(text, i), matching(text, j)
+				return text[:i] + text[j:ej] + text[ei:j] + text[i:ei] + text[ej:]
+			}},
+		snapMutant{"snapshot writes no value for a variable whose value is nil",
+			[]string{"snap|ov:defvar:value:nil", "snap|ov:defparameter:value:nil"},
+			func(text string) string { return setqNilRe.ReplaceAllString(text, "") }})
+	mutantAlready[snapMutants[len(snapMutants)-3].name] = "bound-s-of-new-instance"
+	mutantAlready[snapMutants[len(snapMutants)-2].name] = "probe=function-using-macro"
+	mutantAlready[snapMutants[len(snapMutants)-1].name] = "probe=bound"
+}
+
+var qualDefaultRe = regexp.MustCompile(`(\(b\s+)(9|11|13)\)`)
+var qualParamRe = regexp.MustCompile(`\(\([xy](\s+)fixnum\)\)`)
+var optNilRe = regexp.MustCompile(`\s+:(initform|s)\s+nil\b`)
+var falsyDefaultRe = regexp.MustCompile(`\(([xk])\s+(0|"")\)`)
+var setqNilRe = regexp.MustCompile(`\(setq common-lisp-user::\*ov-v\* nil\)`)
+
 type snapMutant struct {
 	name     string
 	sessions []string
